@@ -285,9 +285,25 @@ Definition model_probe (universe : list hdr) (c : cfg) : list (N * N) :=
 
 Definition pairNN_eqb (x y : N * N) : bool := (fst x =? fst y) && (snd x =? snd y).
 
-(** the script was run over the slow store (every Store.Append parked, then released or failed by the driver) *)
+(** the action that spawned learner call number [i] *)
+Fixpoint nth_spawn (l : list dact) (i : nat) : option dact :=
+  match l with
+  | [] => None
+  | a :: r =>
+    match a with
+    | DDeliver _ _ _ | DDeliverP _ _ _ | DHead _ | DHeadP _ =>
+      match i with O => Some a | S j => nth_spawn r j end
+    | _ => nth_spawn r i
+    end
+  end.
+
+(** the script was run over the slow store (every Store.Append parked, then released or failed by the driver):
+    a write of the loop or of a plain gossip call is released / failed *)
 Definition uses_gate (l : list dact) : bool :=
-  existsb (fun a => match a with DRelL | DFailL | DFailT _ => true | _ => false end) l.
+  existsb (fun a => match a with
+                    | DRelL | DFailL | DFailT _ => true
+                    | DRelT j => match nth_spawn l j with Some (DDeliver _ _ _) => true | _ => false end
+                    | _ => false end) l.
 
 Definition model07 (k : case07) : list obs * bool * list (N * N) :=
   let u := k_init k ++ k_chain k in
